@@ -8,7 +8,8 @@ Import ListNotations.
 Require Import OV.Gen.VersionTables OV.Gen.VersionSchemas OV.Version.Model OV.Version.Adapters OV.Version.AdaptersProofs
                OV.Version.ConvertProofs OV.Version.Std OV.Version.StdProofs
                OV.Version.Schema OV.Version.SchemaProofs OV.Version.SchemaStd OV.Version.SchemaStdProofs
-               OV.Version.AdaptTypingProofs OV.Version.Model2 OV.Version.Model2Proofs.
+               OV.Version.AdaptTypingProofs OV.Version.Model2 OV.Version.Model2Proofs
+               OV.Gen.VersionDocSteps OV.Version.UnsupportedProofs OV.Version.CApi OV.Version.CApiProofs.
 Open Scope Z_scope.
 
 (* ---- convert_consistent: a conversion that finishes without a logged skip declares the target
@@ -348,8 +349,13 @@ Print Assumptions C10_restamped_valid.
    re-stamping only -- same nodes up to versions, recursively (strip forgets versions at every depth) -- and every node
    (at any depth: the last conjunct holds for any pair of nodes equal up to versions) that is valid under the schema
    of the source opset is valid under the schema of the target opset.
-   _partial: for nodes that DO go through an adapter see C10_dft/gridsample/groupnorm_converted_valid below (stated per
-   adapter, not yet threaded through convert_native as one statement); "valid" is schema validity (arity,
+   _partial, what remains exactly: for nodes that DO go through an adapter the validity of the replacement nodes is proved per
+   adapter (C10_dft/gridsample/groupnorm_converted_valid below, for every target from the adapter's version on) but is NOT yet
+   threaded through convert_native2 as one invariant.  Threading needs (a) a typing carried next to the work list (Model.node has
+   no slot for types; two content-identical replacement nodes may be typed differently), (b) validity modulo deprecation for
+   GroupNormalization-18 (deprecated: onnx.checker rejects every GroupNormalization node below 21, so "valid at the source" is
+   false for them), (c) the ANone branches of the adapters (GridSample with mode nearest/linear/cubic, GroupNormalization with
+   num_groups = channels or symbolic dims) shown validity-preserving; "valid" is schema validity (arity,
    attributes, types, type-variable binding), not shape inference or attribute *values*; equality of outputs is
    observed (backend node tests relabelled to the old opset), not proved. *)
 Theorem C10_convert_valid_unadapted_partial : forall fx fuel s t M M' l,
@@ -449,22 +455,22 @@ Print Assumptions C10_adapter_typing_nonvacuous.
 (* ---- the two repaired variants of visit_model (Model2.v; proposed_fixes/ready/C10_01 and C10_02).  Both off = the
    converter as read. *)
 Theorem C10_native2_off : forall adapt smin smax fuel M t,
-  convert_native2 false false adapt smin smax fuel M t = convert_native adapt smin smax fuel M t.
+  convert_native2 false false false adapt smin smax fuel M t = convert_native adapt smin smax fuel M t.
 Proof. exact native2_off. Qed.
 Print Assumptions C10_native2_off.
 
 (* on a model consistent at s the function-opset repair changes nothing: every theorem above carries over *)
-Theorem C10_native2_own_agree : forall adapt smin smax fuel refuse s M t,
+Theorem C10_native2_own_agree : forall adapt smin smax fuel refuse minchk s M t,
   consistent_at s M = true ->
-  convert_native2 true refuse adapt smin smax fuel M t = convert_native2 false refuse adapt smin smax fuel M t.
+  convert_native2 true refuse minchk adapt smin smax fuel M t = convert_native2 false refuse minchk adapt smin smax fuel M t.
 Proof. exact native2_own_agree. Qed.
 Print Assumptions C10_native2_own_agree.
 
 (* _fixed counterpart of C10_native_function_opset_ignored_refuted: functions may declare other opsets than the model;
    each container consistent with its own import => the result is consistent at the target *)
-Theorem C10_native_function_opset_fixed : forall fx fuel refuse s t M M',
+Theorem C10_native_function_opset_fixed : forall fx fuel refuse minchk s t M M',
   locally_consistent s M = true ->
-  convert_native2 true refuse (std_adapt fx) supported_min supported_max fuel M t = MDone M' [] ->
+  convert_native2 true refuse minchk (std_adapt fx) supported_min supported_max fuel M t = MDone M' [] ->
   consistent_at t M' = true.
 Proof. exact (fun fx fuel => native2_own_consistent (std_adapt fx) supported_min supported_max fuel (std_adapt_flat fx)). Qed.
 Print Assumptions C10_native_function_opset_fixed.
@@ -480,10 +486,10 @@ Print Assumptions C10_native_function_opset_fixed_example.
 
 (* _fixed counterpart of the QuantizeLinear finding: when the pre-check fires the converter raises and the model is
    exactly the one passed in ("an unsupported conversion leaves the model as it was") *)
-Theorem C10_quantizelinear_refused_unchanged_fixed : forall adapt smin smax fuel own M t dv fvs,
+Theorem C10_quantizelinear_refused_unchanged_fixed : forall adapt smin smax fuel own minchk M t dv fvs,
   (t >? smax) || (t <? smin) = false -> default_version M = Some dv -> versions_of own dv (m_funcs M) = Some fvs ->
   existsb (refuses t dv) (m_graph M) || existsb (fun p => existsb (refuses t (snd p)) (f_nodes (fst p))) fvs = true ->
-  convert_native2 own true adapt smin smax fuel M t = MRaised ERefused M [].
+  convert_native2 own true minchk adapt smin smax fuel M t = MRaised ERefused M [].
 Proof. exact native2_refused_unchanged. Qed.
 Print Assumptions C10_quantizelinear_refused_unchanged_fixed.
 
@@ -494,3 +500,77 @@ Theorem C10_quantizelinear_refused_example : forall fx own,
   (exists M', std_native2 own false fx w_ql 19 = MDone M' [] /\ consistent_at 19 M' = true).
 Proof. exact quantizelinear_refused. Qed.
 Print Assumptions C10_quantizelinear_refused_example.
+
+(* ---- "when a conversion is not supported the model is left as it was", for EVERY request (source s, target t):
+   outside smin <= s <= t <= smax (target out of range, downgrade, source below the supported minimum) the native path with
+   the below-minimum pre-check (proposed_fixes/ready/C10_03) raises and the model is exactly the one passed in.
+   Function-free model with at least one default-domain node (as after the inlining of the public entry). *)
+Theorem C10_unsupported_request_unchanged_fixed : forall adapt smin smax own refuse fuel s t M,
+  consistent_at s M = true -> m_funcs M = [] -> existsb n_dflt (m_graph M) = true ->
+  unsupported smin smax s t = true ->
+  exists e, convert_native2 own refuse true adapt smin smax fuel M t = MRaised e M [].
+Proof. exact native2_unsupported_unchanged. Qed.
+Print Assumptions C10_unsupported_request_unchanged_fixed.
+
+(* REFUTED without the pre-check (the code as read): a model at opset 11 is "converted" to 18 by stamping -- Squeeze keeps
+   its opset-11 `axes` attribute under an opset-18 import (replayed: onnx.checker rejects the result; finding) *)
+Theorem C10_unsupported_request_unchanged_refuted : forall fx own refuse, exists M',
+  unsupported supported_min supported_max 11 18 = true /\ consistent_at 11 w_below_min = true /\
+  convert_native2 own refuse false (std_adapt fx) supported_min supported_max big_fuel w_below_min 18 = MDone M' [] /\
+  m_decl M' = Some 18 /\ map n_attrs (m_graph M') = [[("axes"%string, AInts [0])]].
+Proof. exact below_min_refuted. Qed.
+Print Assumptions C10_unsupported_request_unchanged_refuted.
+
+Theorem C10_unsupported_request_unchanged_example : forall fx own refuse,
+  convert_native2 own refuse true (std_adapt fx) supported_min supported_max big_fuel w_below_min 18 = MRaised ERefused w_below_min [] /\
+  existsb n_dflt (m_graph w_below_min) = true.
+Proof. exact below_min_fixed_example. Qed.
+Print Assumptions C10_unsupported_request_unchanged_example.
+
+(* ---- "keeps its initializers and graph signature": the native converter's state (Model.model) has no component for graph
+   inputs, outputs or initializers -- it only rewrites node lists and imports (frame by construction; measured on every
+   public case, now also with an adapted node producing a graph output and reading initializers).  The one place that DOES
+   touch them is the C-API fallback wrapper _c_api_utils.call_onnx_api (CApi.v): for every outcome of the C call
+   (the `finally` block) inputs and outputs are restored exactly and the initializer table is the same map. *)
+Theorem C10_capi_wrapper_restores : forall limit g, NoDup (keys (g_inits g)) ->
+  let g2 := snd (call_onnx_api true limit g) in
+  g_inputs g2 = g_inputs g /\ g_outputs g2 = g_outputs g /\
+  forall k, lookup_init k (g_inits g2) = lookup_init k (g_inits g).
+Proof. exact call_onnx_api_restores. Qed.
+Print Assumptions C10_capi_wrapper_restores.
+
+Theorem C10_capi_wrapper_restores_exactly_small : forall limit g, NoDup (keys (g_inits g)) ->
+  Forall (fun kv => t_size (snd kv) <= limit) (g_inits g) ->
+  g_inits (snd (call_onnx_api true limit g)) = g_inits g.
+Proof. exact call_onnx_api_restores_exactly_small. Qed.
+Print Assumptions C10_capi_wrapper_restores_exactly_small.
+
+(* exact ORDER of the initializer table: REFUTED (big initializers are popped and re-registered at the end); harmless *)
+Theorem C10_capi_wrapper_order_refuted :
+  NoDup (keys (g_inits w_capi)) /\
+  keys (g_inits (snd (call_onnx_api true 1000 w_capi))) = ["w_small"%string; "w_big"%string] /\
+  keys (g_inits w_capi) = ["w_big"%string; "w_small"%string] /\
+  g_inputs (fst (call_onnx_api true 1000 w_capi)) = ["x"%string; "w_big"%string; "w_small"%string] /\
+  keys (g_inits (fst (call_onnx_api true 1000 w_capi))) = ["w_small"%string].
+Proof. exact call_onnx_api_order_refuted. Qed.
+Print Assumptions C10_capi_wrapper_order_refuted.
+
+Theorem C10_capi_wrapper_seeded_variant_refuted :
+  lookup_init "w_big" (g_inits (snd (call_onnx_api false 1000 w_capi))) = None /\
+  lookup_init "w_big" (g_inits (snd (call_onnx_api true 1000 w_capi))) = Some big.
+Proof. exact call_onnx_api_seeded_variant_refuted. Qed.
+Print Assumptions C10_capi_wrapper_seeded_variant_refuted.
+
+(* ---- "computes the same outputs" for re-stamped operators: every version step whose doc string changed is classified
+   (by reading both doc strings; Gen/VersionDocSteps.v regenerated, keyed by the hash of the pair); a step classified
+   behavioural has an adapter or is one of the listed exceptions (AveragePool-22 / MaxPool-22: finding; Cast-24: runtimes
+   implement one behaviour for all opsets) *)
+Theorem C10_doc_steps_obligation : forall op v c, In (op, v, c) doc_steps ->
+  c <> DBehavioural \/ adapted_at registry_keys op (v - 1) = true \/ In (op, v) doc_behavioural_exceptions.
+Proof. exact doc_steps_obligation. Qed.
+Print Assumptions C10_doc_steps_obligation.
+
+Theorem C10_doc_behavioural_exact :
+  behavioural_unadapted registry_keys doc_steps = [("AveragePool"%string, 22); ("Cast"%string, 24); ("MaxPool"%string, 22)].
+Proof. exact doc_behavioural_exact. Qed.
+Print Assumptions C10_doc_behavioural_exact.
